@@ -1,6 +1,7 @@
 package main
 
 import (
+	k8slabels "k8s.io/apimachinery/pkg/labels"
 	"time"
 	"context"
 	"fmt"
@@ -43,6 +44,8 @@ type k8sCase struct {
 	Sts []k8sSts
 	// replicashist: several Replicas() calls on one manager; Dt seconds pass before each
 	Calls []k8sCall
+	// shards: pods of another installation exist in another namespace and the manager watches all namespaces
+	Foreign bool
 }
 
 type k8sCall struct {
@@ -115,6 +118,7 @@ func k8sGen(r *rand.Rand, i int, thorough bool) interface{} {
 		sort.Strings(c.PVCs)
 	case k == 3:
 		c.Kind = "shards"
+		c.Foreign = i%10 == 3
 		c.Port = []int{8080, 80, 0, 9090}[r.Intn(4)]
 		n := r.Intn(maxN + 6) // beyond ten pods: ordinal order is not name order
 		for o := 0; o < n; o++ {
@@ -254,10 +258,32 @@ func k8sRun(in interface{}) (string, interface{}, map[string]int) {
 			pl.Items = append(pl.Items, corev1.Pod{ObjectMeta: metav1.ObjectMeta{Name: p.Name, Namespace: ns, Labels: map[string]string{"a": "b"}},
 				Status: corev1.PodStatus{PodIP: p.IP}})
 		}
+		// pods of another installation: another namespace, the same selector labels, colliding names
+		mgrNS := ns
+		if c.Foreign {
+			mgrNS = "" // the manager watches all namespaces (the default of --shard.namespace)
+			for o := 0; o < 3; o++ {
+				pl.Items = append(pl.Items, corev1.Pod{ObjectMeta: metav1.ObjectMeta{Name: fmt.Sprintf("%s-%d", c.Set, o), Namespace: "other", Labels: map[string]string{"a": "b"}},
+					Status: corev1.PodStatus{PodIP: fmt.Sprintf("10.9.9.%d", o+1)}})
+			}
+			st["foreign_pods"]++
+		}
 		cli.PrependReactor("list", "pods", func(action k8stesting.Action) (bool, runtime.Object, error) {
-			return true, pl.DeepCopy(), nil
+			// as the API server would: the namespace and the label selector of the request decide
+			la := action.(k8stesting.ListAction)
+			out := &corev1.PodList{}
+			for _, p := range pl.Items {
+				if la.GetNamespace() != "" && p.Namespace != la.GetNamespace() {
+					continue
+				}
+				if sel := la.GetListRestrictions().Labels; sel != nil && !sel.Matches(k8slabels.Set(p.Labels)) {
+					continue
+				}
+				out.Items = append(out.Items, *p.DeepCopy())
+			}
+			return true, out, nil
 		})
-		rm := k.NewReplicasManager(cli, ns, "", c.Port, false, quietLog)
+		rm := k.NewReplicasManager(cli, mgrNS, "", c.Port, false, quietLog)
 		ms, err := rm.Replicas()
 		if err != nil || len(ms) != 1 {
 			panic(fmt.Sprint("k8s harness: Replicas ", err, len(ms)))
